@@ -347,7 +347,7 @@ impl World {
                 // the document is given literally or by the name of one of the driver's fixture documents
                 let text = match a["text"].as_str() {
                     Some(t) if !t.is_empty() => t.to_string(),
-                    _ => crate::drive::docs().into_iter().find(|(n, _)| Some(n.as_str()) == a["doc"].as_str()).map(|(_, t)| t)?,
+                    _ => crate::drive::docs().into_iter().find(|(n, _)| Some(n.as_str()) == a["doc"].as_str().or(a["k"].as_str())).map(|(_, t)| t)?,
                 };
                 let strict = a["strict"].as_bool().unwrap_or(true);
                 Box::new(move || Out::Load(m.load_buffer(text.as_bytes(), name, strict)))
